@@ -106,6 +106,7 @@ def run(chk):
                    where=b.where(blk))
     chk.floor("token-confirming sites", n, 2)
     # ---- R2 token entropy
+    refreshed_after_build = chk.extra.setdefault("_refreshed_after_build", [])
     cf = prog.bodies.get("humphrey_auth::session::Session::create_with_lifetime")
     chk.floor("Session::create_with_lifetime", 1 if cf else 0, 1)
     if cf:
@@ -139,10 +140,32 @@ def run(chk):
                         ok2, src2, how2 = hex_per_byte(prog, cf, buf_local, tok)
                         if ok2 and src2:
                             ok, src_ok, how = ok2, src2, how2
+                    if not (ok and src_ok):
+                        # bytes.iter().map(|b| format!("{:02x}", b)).collect::<String>(): every byte, in order, one formatted piece each
+                        tk = panics._strip(tok)
+                        if isinstance(tk, tuple) and tk[0] == "call" and core.re.search(r"Iterator>?::collect$", tk[1]) and tk[2] and isinstance(tk[2][0], tuple) and \
+                                tk[2][0][0] == "call" and core.re.search(r"Iterator>?::map$", tk[2][0][1]):
+                            recv_, clo_ = tk[2][0][2][0], tk[2][0][2][1]
+                            plain_iter = isinstance(recv_, tuple) and recv_[0] == "call" and recv_[1].endswith("::iter") and \
+                                not [c for c in core.desc_calls(recv_) if core.re.search(r"::(skip|take|step_by|rev|filter|skip_while|take_while|chain|zip)$", c[1])]
+                            itb = [c for c in core.desc_calls(recv_) if c[1].endswith("::iter") and len(c) > 3]
+                            il = _deref_chain(cf, core.op_local(cf.term(itb[0][3])["args"][0])) if itb else None
+                            per_byte = clo_[0] == "closure" and clo_[1] in prog.bodies and "String" in (prog.bodies[clo_[1]].local_ty(0) or "") and bool(fmt.format_sites(prog.bodies[clo_[1]]))
+                            if plain_iter and per_byte and il == buf_local and "String" in (cf.local_ty(core.op_local(rv["ops"][rv["fields"].index("token")])) or "String"):
+                                ok, src_ok, how = True, True, "map(format {:02x}) + collect"
                     chk.ob("R2.token", cf.path, "Session.token is the hex encoding of all of those bytes", ok and src_ok, f"token = {panics.short_desc(tok)} ({how})")
                     exp = describe(prog, cf, rv["ops"][rv["fields"].index("expiry")])
-                    chk.ob("R2.expiry", cf.path, "expiry = now + lifetime", desc_contains(exp, lambda y: y[0] == "bin" and y[1].startswith("Add")) and desc_contains(exp, lambda y: y[0] == "param" and y[2] == "lifetime") and
-                           desc_contains(exp, lambda y: y[0] == "call" and y[1].endswith("SystemTime::elapsed")), f"{panics.short_desc(exp)}")
+                    exp_ok = desc_contains(exp, lambda y: y[0] == "bin" and y[1].startswith("Add")) and desc_contains(exp, lambda y: y[0] == "param" and y[2] == "lifetime") and \
+                        desc_contains(exp, lambda y: y[0] == "call" and y[1].endswith("SystemTime::elapsed"))
+                    if not exp_ok:
+                        # built with a placeholder and then given its expiry by Session::refresh(lifetime) on every path to the return
+                        rf = [blk2 for blk2, t2 in cf.calls_to(r"session::Session::refresh$")
+                              if len(t2["args"]) > 1 and panics._strip(describe(prog, cf, t2["args"][1]))[0] == "param" and panics._strip(describe(prog, cf, t2["args"][1]))[2] == "lifetime"]
+                        here = next((bi_ for bi_, b2_ in enumerate(cf.blocks) if s_ in b2_["stmts"]), None)
+                        if rf and here is not None and core.must_pass(cf, [here], core.return_blocks(cf), through_nodes=rf) is None:
+                            exp_ok = True
+                            refreshed_after_build.append(True)
+                    chk.ob("R2.expiry", cf.path, "expiry = now + lifetime", exp_ok, f"{panics.short_desc(exp)}")
         for c in prog.closures_of(cf.path):
             lits = fmt.format_sites(c)
             if lits:
@@ -209,6 +232,9 @@ def run(chk):
     # (closures of helpers that did not exist on the pinned tree are looked at where the helper is inlined)
     cl = [b for p, b in prog.bodies.items() if "humphrey_auth::app::" in p and b.kind == "closure" and owner_fn(p) not in newf and
           b.calls_to(r"AuthProvider::<T>::get_uid_by_token$")]
+    # (a closure that the combinator lowering inlined into its parent is looked at there)
+    inl_ = {blk_.get("from_closure") for b_ in prog.bodies.values() if "humphrey_auth::app::" in b_.path for blk_ in b_.blocks if blk_.get("from_closure")}
+    cl = [b for b in cl if b.path not in inl_]
     chk.floor("auth route closure", len(cl), 1)
     for c in cl:
         gets = c.calls_to(r"AuthProvider::<T>::get_uid_by_token$")
@@ -317,6 +343,16 @@ def implies_equality(prog, body, l, side_a, side_b, depth=0):
             if rv["k"] == "use" and rv["o"].get("k") == "const":
                 if rv["o"].get("v") is False:
                     continue
+                # `matches!(x, Some(s) if s.token == token)`: `true` is assigned in the arm the equality test guards
+                guarded = False
+                for s2_, lab_, gd_, info_ in core.guards_dominating(prog, body, d[0]):
+                    if lab_ == "true" and isinstance(gd_, tuple) and gd_ and gd_[0] == "call" and core.re.search(EQ, gd_[1]) and len(gd_[2]) == 2:
+                        a = panics._strip(gd_[2][0])
+                        b = panics._strip(gd_[2][1])
+                        if (side_a(body, a) and side_b(body, b)) or (side_a(body, b) and side_b(body, a)):
+                            guarded = True
+                if guarded:
+                    continue
                 return False, f"the match result is the constant {rv['o'].get('v')}"
             if rv["k"] == "bin" and rv.get("op") == "BitAnd":
                 oks = []
@@ -400,6 +436,9 @@ def whole_password_and_expiry(chk, prog):
             m += 1
             d = panics._strip(d)
             ok = False
+            if fn.endswith("create_with_lifetime") and chk.extra.get("_refreshed_after_build") and d[0] == "lit":
+                chk.ob("R7.expiry_from_now", fn, "expiry = (seconds since the epoch, now) + lifetime", True, "placeholder, set by Session::refresh(lifetime) before the session is returned", where=b.where(blk_i))
+                continue
             if isinstance(d, tuple) and d[0] == "field" and isinstance(d[1], tuple) and d[1][0] == "bin" and d[1][1] in ("AddWithOverflow", "Add"):
                 l, r = panics._strip(d[1][2]), panics._strip(d[1][3])
                 def is_now(x):
